@@ -409,6 +409,7 @@ func parent() {
 		"a worker death is attributed through the worker's progress marker and believed only after the single case reproduces it in 3 fresh workers; after " + fmt.Sprint(groupDeathLimit) + " deaths in one family group the rest of the group is abandoned (exhaustive=false)",
 		"hangs: a call that does not return within 20 s (60 s x3 on confirmation) or, for the scripted stream readers, 100000 consecutive zero-length reads",
 		"forwarding threads are recording stubs; PIT/CS/FIB are therefore never reached by a frame in this check",
+		"link-service histories (single frames, sequences, bursts): every frame is copied into ONE receive buffer per face, whose earlier content is overwritten first (a transport owns its buffer between calls); C04.state compares the link-service dump and a deep fingerprint of every packet already handed to a recording thread before/after a frame that fails to decode or has contradictory fragmentation fields; the stream entries use readTlvStream's own buffer",
 	}
 	rep.Finish(cov, assumptions)
 }
@@ -497,7 +498,10 @@ func runBFS(pool *pool, ps *parentState, d *describeResponse, thorough bool, dea
 		depth = 3
 	}
 	cfgs := []int{1} // n=2, non-local (the local face differs only in how Data without a token is dispatched: covered by the single-frame product)
-	cov := map[string]any{"depth": depth, "alphabet": d.LpFrames, "exhaustive": true}
+	cov := map[string]any{"depth": depth, "alphabet": d.LpFrames, "exhaustive": true,
+		"alphabet_frames_that_are_not_LpPackets": lpExtraKinds,
+		"receive_buffer":                         "all frames of a history are delivered in one receive buffer that is overwritten before the next frame; packets dispatched by earlier frames stay queued and are fingerprinted again after every later frame",
+		"canonical_state":                        "white-box dump of the link service + kinds of packet (Interest/Data x bare/LpPacket) forwarding threads already hold"}
 	var idMu sync.Mutex
 	newID := func() int64 { idMu.Lock(); defer idMu.Unlock(); *nextID++; return *nextID + 1000000 }
 	totalStates, totalTrans := 0, int64(0)
